@@ -85,6 +85,9 @@ theories/Outline.vos theories/Outline.vok theories/Outline.required_vos: theorie
 theories/OutlineProofs.vo theories/OutlineProofs.glob theories/OutlineProofs.v.beautified theories/OutlineProofs.required_vo: theories/OutlineProofs.v theories/Base.vo theories/UStr.vo theories/Outline.vo gen/UnicodeTables.vo gen/OutlineTables.vo
 theories/OutlineProofs.vio: theories/OutlineProofs.v theories/Base.vio theories/UStr.vio theories/Outline.vio gen/UnicodeTables.vio gen/OutlineTables.vio
 theories/OutlineProofs.vos theories/OutlineProofs.vok theories/OutlineProofs.required_vos: theories/OutlineProofs.v theories/Base.vos theories/UStr.vos theories/Outline.vos gen/UnicodeTables.vos gen/OutlineTables.vos
+theories/Protocol.vo theories/Protocol.glob theories/Protocol.v.beautified theories/Protocol.required_vo: theories/Protocol.v theories/Base.vo theories/Status.vo theories/Rollup.vo theories/Runner.vo theories/RunnerSteps.vo theories/RunnerQuiet.vo theories/Formatters.vo theories/FormattersProofs.vo gen/StatusTable.vo
+theories/Protocol.vio: theories/Protocol.v theories/Base.vio theories/Status.vio theories/Rollup.vio theories/Runner.vio theories/RunnerSteps.vio theories/RunnerQuiet.vio theories/Formatters.vio theories/FormattersProofs.vio gen/StatusTable.vio
+theories/Protocol.vos theories/Protocol.vok theories/Protocol.required_vos: theories/Protocol.v theories/Base.vos theories/Status.vos theories/Rollup.vos theories/Runner.vos theories/RunnerSteps.vos theories/RunnerQuiet.vos theories/Formatters.vos theories/FormattersProofs.vos gen/StatusTable.vos
 theories/Regex.vo theories/Regex.glob theories/Regex.v.beautified theories/Regex.required_vo: theories/Regex.v theories/Base.vo theories/UStr.vo theories/StepMatch.vo
 theories/Regex.vio: theories/Regex.v theories/Base.vio theories/UStr.vio theories/StepMatch.vio
 theories/Regex.vos theories/Regex.vok theories/Regex.required_vos: theories/Regex.v theories/Base.vos theories/UStr.vos theories/StepMatch.vos
@@ -211,9 +214,9 @@ props/C13.vos props/C13.vok props/C13.required_vos: props/C13.v theories/Base.vo
 props/C14.vo props/C14.glob props/C14.v.beautified props/C14.required_vo: props/C14.v theories/Base.vo theories/Status.vo theories/Rollup.vo theories/Runner.vo theories/RunnerRange.vo theories/Summary.vo theories/SummaryProofs.vo theories/RunnerEq.vo gen/StatusTable.vo gen/SummaryTables.vo
 props/C14.vio: props/C14.v theories/Base.vio theories/Status.vio theories/Rollup.vio theories/Runner.vio theories/RunnerRange.vio theories/Summary.vio theories/SummaryProofs.vio theories/RunnerEq.vio gen/StatusTable.vio gen/SummaryTables.vio
 props/C14.vos props/C14.vok props/C14.required_vos: props/C14.v theories/Base.vos theories/Status.vos theories/Rollup.vos theories/Runner.vos theories/RunnerRange.vos theories/Summary.vos theories/SummaryProofs.vos theories/RunnerEq.vos gen/StatusTable.vos gen/SummaryTables.vos
-props/C15.vo props/C15.glob props/C15.v.beautified props/C15.required_vo: props/C15.v theories/Base.vo theories/Status.vo theories/Rollup.vo theories/Runner.vo theories/RunnerSteps.vo theories/Formatters.vo theories/FormattersProofs.vo theories/RunnerEq.vo gen/StatusTable.vo
-props/C15.vio: props/C15.v theories/Base.vio theories/Status.vio theories/Rollup.vio theories/Runner.vio theories/RunnerSteps.vio theories/Formatters.vio theories/FormattersProofs.vio theories/RunnerEq.vio gen/StatusTable.vio
-props/C15.vos props/C15.vok props/C15.required_vos: props/C15.v theories/Base.vos theories/Status.vos theories/Rollup.vos theories/Runner.vos theories/RunnerSteps.vos theories/Formatters.vos theories/FormattersProofs.vos theories/RunnerEq.vos gen/StatusTable.vos
+props/C15.vo props/C15.glob props/C15.v.beautified props/C15.required_vo: props/C15.v theories/Base.vo theories/Status.vo theories/Rollup.vo theories/Runner.vo theories/RunnerSteps.vo theories/Formatters.vo theories/FormattersProofs.vo theories/Protocol.vo theories/RunnerEq.vo gen/StatusTable.vo
+props/C15.vio: props/C15.v theories/Base.vio theories/Status.vio theories/Rollup.vio theories/Runner.vio theories/RunnerSteps.vio theories/Formatters.vio theories/FormattersProofs.vio theories/Protocol.vio theories/RunnerEq.vio gen/StatusTable.vio
+props/C15.vos props/C15.vok props/C15.required_vos: props/C15.v theories/Base.vos theories/Status.vos theories/Rollup.vos theories/Runner.vos theories/RunnerSteps.vos theories/Formatters.vos theories/FormattersProofs.vos theories/Protocol.vos theories/RunnerEq.vos gen/StatusTable.vos
 props/C16.vo props/C16.glob props/C16.v.beautified props/C16.required_vo: props/C16.v theories/Base.vo theories/UStr.vo theories/Status.vo theories/JUnit.vo theories/JUnitProofs.vo gen/StatusTable.vo gen/JUnitTables.vo
 props/C16.vio: props/C16.v theories/Base.vio theories/UStr.vio theories/Status.vio theories/JUnit.vio theories/JUnitProofs.vio gen/StatusTable.vio gen/JUnitTables.vio
 props/C16.vos props/C16.vok props/C16.required_vos: props/C16.v theories/Base.vos theories/UStr.vos theories/Status.vos theories/JUnit.vos theories/JUnitProofs.vos gen/StatusTable.vos gen/JUnitTables.vos
